@@ -29,6 +29,62 @@ def arms_for(g, lv, checked):
     return arms
 
 
+def range_arms(g, lv):
+    """cursor_range / cursor_subrange over the groups that are direct members of level lv"""
+    arms = []
+    guard = g.level_guard(lv); d = lv.depth; G = g.G
+    for gr in lv.node.groups:
+        n = pn(lv.path + (gr.name,)); ix = idx(d)
+        code = "    VASSUME(%s); i64 ad[%d], o[2] = {-9, -9}; for (unsigned i = 0; i < %d; i++) ad[i] = -9;\n" % (guard, G + 1, G + 1)
+        code += "    CALL(crange_%s_%s(buf, N, i0, i1, ad, %d, o));\n" % (g.M, n, G + 1)
+        code += '    VASSERT(!verif_aborted, "a legal traversal must not invoke the handler");\n'
+        code += '    VASSERT((u64)o[0] == r.%s_n%s, "cursor_range produces exactly numInGroup entries");\n' % (n, ix)
+        code += '    for (unsigned i = 0; i < %d; i++) if (i < r.%s_n%s) VASSERT(ad[i] == (i64)r.%s_ent%s[i], "cursor_range entry i is the entry random access gives");\n' % (G, n, ix, n, ix)
+        code += '    VASSERT((u64)o[1] == r.%s_end%s, "after the range the cursor is at the end of the group");\n' % (n, ix)
+        arms.append(("crange_" + n, code))
+        code = "    VASSUME(%s); IN(u64, pos); IN(u64, cnt); IN(u32, use_cnt); VASSUME(pos < r.%s_n%s && use_cnt <= 1); VASSUME(cnt <= r.%s_n%s - pos);\n" % (guard, n, ix, n, ix)
+        code += "    u64 pp = pos < %d ? pos : 0; u64 expn = use_cnt ? cnt : r.%s_n%s - pos;\n" % (G, n, ix)
+        code += "    i64 ad[%d], o[2] = {-9, -9}; for (unsigned i = 0; i < %d; i++) ad[i] = -9;\n" % (G + 1, G + 1)
+        code += "    CALL(csub_%s_%s(buf, N, i0, i1, pos, cnt, use_cnt, (i64)r.%s_ent%s[pp], ad, %d, o));\n" % (g.M, n, n, ix, G + 1)
+        code += '    VASSERT(!verif_aborted, "a legal sub-range traversal must not invoke the handler");\n'
+        code += '    VASSERT((u64)o[0] == expn, "cursor_subrange(pos[,count]) produces the requested number of entries");\n'
+        code += '    for (unsigned i = 0; i < %d; i++) if (i < expn && pos + i < %d) VASSERT(ad[i] == (i64)r.%s_ent%s[pos + i], "sub-range entry i is entry pos+i");\n' % (G, G, n, ix)
+        code += '    if (expn > 0 && pos + expn - 1 < %d) VASSERT((u64)o[1] == r.%s_eend%s[pos + expn - 1], "the cursor ends at the end of the visited sub-range"); else if (expn == 0) VASSERT((u64)o[1] == r.%s_ent%s[pp], "an empty sub-range leaves the cursor where it was");\n' % (G, n, ix, n, ix)
+        arms.append(("csub_" + n, code))
+    return arms
+
+
+def setter_arms(g, lv, checked):
+    arms = []
+    guard = g.level_guard(lv); be = g.be
+    for m in g.cursor_members(lv):
+        if m["kind"] != "scalar": continue
+        code = "    VASSUME(%s); IN(u32, kind); VASSUME(kind <= 3); IN(u64, coff); VASSUME(coff <= N); IN(u64, v); i64 o[1] = {-9};\n" % guard
+        code += "    u64 before = %s, off = %s, after = %s;\n" % (m["before"], m["off"], m["after"])
+        anypos = "(kind == 1 || kind == 3)"
+        if not checked:
+            code += "    VASSUME(%s || coff == before);\n" % anypos
+        code += "    CALL(curset_%s_%s_%s(buf, N, i0, i1, kind, (i64)coff, v, o));\n" % (g.M, lv.name, m["name"])
+        code += "    if (%s || coff == before) {\n" % anypos
+        code += '      VASSERT(!verif_aborted, "a legal cursor setter call must not invoke the handler");\n'
+        code += '      for (unsigned i = 0; i < N; i++) { if (i >= off && i < off + %d) VASSERT(buf[i] == ref_byte(v, %d, %d, i - (unsigned)off), "cursor setter writes the same bytes as the random-access setter"); else VASSERT(buf[i] == old[i], "cursor setter writes nothing else"); }\n' % (m["size"], m["size"], be)
+        code += '      VASSERT((u64)o[0] == ((kind == 0 || kind == 1) ? after : before), "cursor is left at the documented position after a cursor setter");\n'
+        code += "    } else {\n"
+        code += '      VASSERT(verif_aborted, "a cursor setter with the cursor at a wrong position is reported through the assertion handler");\n'
+        code += '      for (unsigned i = 0; i < N; i++) VASSERT(buf[i] == old[i], "a reported misuse writes nothing");\n'
+        code += "    }\n"
+        arms.append(("set_" + m["name"], code))
+    return arms
+
+
+def harness_nw(u, g, arms, N, E, D):
+    body = g.prologue(N, E, D) + "  SELECT(which);\n  switch (which) {\n"
+    for k, (label, code) in enumerate(arms):
+        body += "  case %d: { /* %s */\n%s    break; }\n" % (k, label, code)
+    body += "  default: VASSUME(0);\n  }\n"
+    return hgen.harness([u], body, pre=g.ref_c())
+
+
 def harness(u, g, arms, N, E, D):
     body = g.prologue(N, E, D) + "  SELECT(which);\n  switch (which) {\n"
     for k, (label, code) in enumerate(arms):
@@ -51,16 +107,16 @@ def build(ctx):
         for msg in sch.messages:
             if ctx.quick and msg.name in c02.QUICK_SKIP: continue
             g = msggen.MG(sch, msg, G)
-            u = ctx.lower("c04_%s_%s" % (sch.ns, msg.name), g.cpp_prelude() + g.cpp_cursor(), std=std, mode=mode, incs=[inc])
+            u = ctx.lower("c04_%s_%s" % (sch.ns, msg.name), g.cpp_prelude() + g.cpp_cursor() + g.cpp_cursor_ranges() + g.cpp_cursor_setters(), std=std, mode=mode, incs=[inc])
             N = g.max_size(E, D) + 1
             dynamic = bool(msg.groups or msg.data)
             for lv in g.levels:
-                arms = arms_for(g, lv, mode == "checked")
-                if not arms: continue
-                groups = [[a] for a in arms] if dynamic else [arms[j:j + 5] for j in range(0, len(arms), 5)]
-                for k, chunk in enumerate(groups):
-                    nm = chunk[0][0] if dynamic else str(k)
-                    hs.append(P.Harness("%s_%s_%s_%s_%s_cxx%s" % (sch.ns, msg.name, lv.name, nm, mode, std), harness(u, g, chunk, N, E, D), [u], unwind=G + 2,
+                for kind, arms, mk in (("get", arms_for(g, lv, mode == "checked"), harness), ("range", range_arms(g, lv), harness), ("set", setter_arms(g, lv, mode == "checked"), harness_nw)):
+                  if not arms: continue
+                  groups = [[a] for a in arms] if dynamic else [arms[j:j + 5] for j in range(0, len(arms), 5)]
+                  for k, chunk in enumerate(groups):
+                    nm = kind + "_" + (chunk[0][0] if dynamic else str(k))
+                    hs.append(P.Harness("%s_%s_%s_%s_%s_cxx%s" % (sch.ns, msg.name, lv.name, nm, mode, std), mk(u, g, chunk, N, E, D), [u], unwind=G + 2,
                                         cap=ctx.q(150, 900), backends=["minisat", "kissat"], extra_flags=["--no-standard-checks"],
                                         meta={"big_loops": ["ref_walk_%s.%d" % (msg.name, x) for x in range(16)]},
                                         desc="message %s.%s level %s: cursor protocol of %s for kinds {plain, init, dont_move, init_dont_move, skip} from every cursor position" % (sch.ns, msg.name, lv.name, [a[0] for a in chunk]),
